@@ -792,10 +792,59 @@ impl Drop for ServerHandle {
 
 pub type ClientSvc = hyperdriver::client::SharedClientService<ChunkBody, Body>;
 
+thread_local! {
+    /// how often the protocol service of clients built on this thread answers `Pending` (with a wake-up) before it
+    /// reports ready - what a limiting or buffering middleware around the protocol does under load
+    pub static PROTOCOL_PENDING_POLLS: std::cell::Cell<usize> = const { std::cell::Cell::new(0) };
+}
+
+/// The crate's protocol, not ready at once: every instance answers `Pending` `pending_polls` times first.
+pub struct NotReadyAtOnce<P> {
+    inner: P,
+    pending_polls: usize,
+    left: usize,
+}
+
+impl<P: Clone> Clone for NotReadyAtOnce<P> {
+    fn clone(&self) -> Self {
+        NotReadyAtOnce { inner: self.inner.clone(), pending_polls: self.pending_polls, left: self.pending_polls }
+    }
+}
+
+impl<P: std::fmt::Debug> std::fmt::Debug for NotReadyAtOnce<P> {
+    fn fmt(&self, f: &mut std::fmt::Formatter<'_>) -> std::fmt::Result {
+        self.inner.fmt(f)
+    }
+}
+
+impl<P, R> tower::Service<R> for NotReadyAtOnce<P>
+where
+    P: tower::Service<R>,
+{
+    type Response = P::Response;
+    type Error = P::Error;
+    type Future = P::Future;
+
+    fn poll_ready(&mut self, cx: &mut Context<'_>) -> Poll<Result<(), Self::Error>> {
+        if self.left > 0 {
+            self.left -= 1;
+            cx.waker().wake_by_ref();
+            return Poll::Pending;
+        }
+        self.inner.poll_ready(cx)
+    }
+
+    fn call(&mut self, req: R) -> Self::Future {
+        self.left = self.pending_polls;
+        self.inner.call(req)
+    }
+}
+
 pub fn build_client(routes: Routes, pool: Option<hyperdriver::client::PoolConfig>, tls: Option<rustls::ClientConfig>, timeout: Option<std::time::Duration>) -> ClientSvc {
+    let pending_polls = PROTOCOL_PENDING_POLLS.with(|c| c.get());
     let b = hyperdriver::Client::builder()
         .with_transport(routes)
-        .with_protocol(hyperdriver::client::conn::protocol::auto::HttpConnectionBuilder::<ChunkBody>::default())
+        .with_protocol(NotReadyAtOnce { inner: hyperdriver::client::conn::protocol::auto::HttpConnectionBuilder::<ChunkBody>::default(), pending_polls, left: pending_polls })
         .without_redirects()
         .with_optional_timeout(timeout)
         .with_body::<ChunkBody, Body>();
